@@ -107,3 +107,5 @@ mod maybe_nan;
 mod quantile;
 mod sort;
 mod summary_statistics;
+#[cfg(ndarray_stats_verif)]
+pub mod verif_hooks;
